@@ -1,6 +1,6 @@
 (* C03 — (B) the Python assembly agrees with the per-site decode: interval selection,
    haplotype columns (incl. the alleles[-1] trick for missing data), alignment rows. *)
-From Coq Require Import List ZArith Bool Lia Sorting.Sorted.
+From Coq Require Import List ZArith Bool Lia Sorting.Sorted QArith.
 From TskVerif Require Import Base.Common C03.Model C03.ArrayProofs C03.AlleleProofs C03.PyViews.
 Import ListNotations.
 Open Scope Z_scope.
@@ -429,3 +429,100 @@ Proof.
   exists rows. split; [reflexivity|]. intros i h G.
   exact (alignment_rows_l _ _ ND _ _ _ H i h G).
 Qed.
+
+(* ---- error classes of haplotypes()/alignments() ----------------------------------------------- *)
+(* The only failures of the per-allele encoding are TypeError (an allele that is not a single
+   character) and ValueError (an allele equal to the missing-data character), decided by the
+   FIRST offending entry of var.alleles. *)
+Lemma allele_codes_error_l mdc : forall l c,
+  mapM (allele_code mdc) l = Err c ->
+  exists pre a post codes, l = pre ++ a :: post /\ mapM (allele_code mdc) pre = Ok codes /\
+    ((c = PY_TYPE_ERROR /\ exists s, a = Some s /\ length s <> 1%nat) \/
+     (c = PY_VALUE_ERROR /\ a = Some [mdc])).
+Proof.
+  induction l as [|x l IH]; intros c H; simpl in H; [discriminate|].
+  destruct (allele_code mdc x) as [y| | |] eqn:AC.
+  - cbn [bind] in H. destruct (mapM (allele_code mdc) l) as [ys| | |] eqn:M; try discriminate.
+    cbn [bind] in H. inversion H; subst.
+    destruct (IH c eq_refl) as (pre & a & post & codes & -> & MP & CL).
+    exists (x :: pre), a, post, (y :: codes). split; [reflexivity|]. split; [|assumption].
+    simpl. rewrite AC, MP. reflexivity.
+  - cbn [bind] in H. inversion H; subst.
+    exists [], x, l, []. split; [reflexivity|]. split; [reflexivity|].
+    unfold allele_code in AC. destruct x as [[|c0 [|c1 s]]|]; try discriminate.
+    + inversion AC; subst. left. split; [reflexivity|]. exists []. split; [reflexivity | simpl; lia].
+    + destruct (c0 =? mdc) eqn:E; [|discriminate]. apply Z.eqb_eq in E. subst.
+      inversion AC; subst. right. auto.
+    + inversion AC; subst. left. split; [reflexivity|]. exists (c0 :: c1 :: s). split; [reflexivity | simpl; lia].
+  - exfalso. destruct x as [[|c0 [|c1 s]]|]; simpl in AC; try discriminate;
+      try (destruct (c0 =? mdc); discriminate).
+  - exfalso. destruct x as [[|c0 [|c1 s]]|]; simpl in AC; try discriminate;
+      try (destruct (c0 =? mdc); discriminate).
+Qed.
+
+Lemma mapM_no_err {A B} (f : A -> res B) :
+  (forall x c, f x <> Err c) -> forall l c, mapM f l <> Err c.
+Proof.
+  intros F. induction l as [|x l IH]; intros c; simpl; [discriminate|].
+  destruct (f x) as [y| c' | |] eqn:E; cbn [bind]; try discriminate.
+  - destruct (mapM f l) as [ys| c'' | |] eqn:M; cbn [bind]; try discriminate.
+    intros X. inversion X; subst. exact (IH c eq_refl).
+  - exfalso. exact (F x c' E).
+Qed.
+
+Lemma py_getitem_no_err {A} (l : list A) x c : py_getitem l x <> Err c.
+Proof.
+  unfold py_getitem. destruct (x <? 0).
+  - destruct (get_cases l (zlen l + x)) as [[y E] | E]; rewrite E; discriminate.
+  - destruct (get_cases l x) as [[y E] | E]; rewrite E; discriminate.
+Qed.
+
+Lemma hap_column_error_class_l mdc g al hm c :
+  hap_column mdc (g, al, hm) = Err c ->
+  exists pre a post codes, py_alleles (g, al, hm) = pre ++ a :: post /\
+    mapM (allele_code mdc) pre = Ok codes /\
+    ((c = PY_TYPE_ERROR /\ exists s, a = Some s /\ length s <> 1%nat) \/
+     (c = PY_VALUE_ERROR /\ a = Some [mdc])).
+Proof.
+  unfold hap_column. intros H.
+  destruct (mapM (allele_code mdc) (py_alleles (g, al, hm))) as [codes| | |] eqn:M.
+  - cbn [bind] in H. exfalso. exact (mapM_no_err _ (py_getitem_no_err codes) g c H).
+  - cbn [bind] in H. inversion H; subst. apply allele_codes_error_l. assumption.
+  - discriminate.
+  - discriminate.
+Qed.
+
+(* ---- frequencies() -------------------------------------------------------------------------------- *)
+Lemma fget_map_filter (f : Z -> option Q) (p : option allele * Z -> bool) a : forall d,
+  (forall kc, fst kc = Some a -> p kc = true) ->
+  (forall k, okey_eqb (Some a) k = true -> k = Some a) ->
+  fget (map (fun kc => (fst kc, f (snd kc))) (filter p d)) (Some a)
+  = option_map f (dict_get d (Some a)).
+Proof.
+  intros d P E. induction d as [|[k x] d IH]; [reflexivity|].
+  cbn [filter dict_get]. destruct (okey_eqb (Some a) k) eqn:EK.
+  - pose proof (E k EK). subst k. rewrite (P (Some a, x) eq_refl). cbn [map fst snd fget]. rewrite EK. reflexivity.
+  - destruct (p (k, x)); cbn [map fst snd fget]; [rewrite EK|]; exact IH.
+Qed.
+
+(* every allele of the list is mapped to carriers/total (no missing-data removal, some samples) *)
+Lemma frequencies_correct_l g al hm a :
+  In a al -> 0 < zlen g ->
+  fget (frequencies_model false (g, al, hm)) (Some a)
+  = Some (Some (carriers (g, al, hm) a # Z.to_pos (zlen g))).
+Proof.
+  intros I T. unfold frequencies_model. replace (zlen g - 0) with (zlen g) by lia.
+  rewrite (fget_map_filter (fun c => if 0 <? zlen g then Some (c # Z.to_pos (zlen g)) else None)).
+  - rewrite (counts_correct_l g al hm a I). simpl.
+    destruct (0 <? zlen g) eqn:E; [reflexivity | apply Z.ltb_ge in E; lia].
+  - intros kc _. reflexivity.
+  - intros k EK. destruct k as [b|]; [|discriminate]. rewrite okey_some_eqb in EK.
+    apply allele_eqb_eq in EK. subst. reflexivity.
+Qed.
+
+(* copy(): the copy shows what the variant showed when it was taken, and refuses to decode *)
+Lemma copy_spec_l v g al hm s :
+  let c := restricted_copy v (g, al, hm) in
+  c_samples c = v_samples v /\ c_genotypes c = g /\ c_alleles c = al /\ c_has_missing c = hm /\
+  decode_copy c s = Err ERR_VARIANT_CANT_DECODE_COPY.
+Proof. cbv. repeat split; reflexivity. Qed.
